@@ -185,6 +185,13 @@ type universe struct {
 	ShapeFlat   int      // flat trees: every non-empty subset of ShapeNames of at most this size (as files), and the full set
 	ShapeNested int      // nested trees: every non-empty subset of at most this size as directories that hold the full set as files
 	ShapeSeg2   []string // second (first) segment of the two-segment patterns whose other segment runs over all shape segments; nil = all of them
+
+	// The spelling dimension (eval.go, spellings): every existing ReadDir
+	// directory and WalkDir root, and the patterns over SpellSegs, are also asked
+	// in every spelling that is not the shortest.
+	SpellSegs   []string // segments of the Glob patterns that are spelled
+	SpellMaxSeg int      // their length in segments
+	SpellFams   bool     // spelled WalkDir roots get every callback family at every visit index, not only the callback that never acts
 }
 
 // shapeNames: "a" and its continuations at the edges of the byte ranges, and a
@@ -193,18 +200,22 @@ var shapeNames = []string{"a", "ab", "a~", "a\x7f", "a\u00e9", "a\u20ac", "a\U00
 
 const shapeLabel = "name-shape trees (after the mode trees): names {a, ab, a~, a<7f>, a<U+00E9>, a<U+20AC>, a<U+10FFFF>, a<ff>, b} (a shared prefix continued by nothing, an ASCII letter, the last printable and the last ASCII byte, a 2-, 3- and 4-byte rune, the byte 0xff; one name outside the prefix): "
 
+const spellLabel = "spellings (every tree): every existing ReadDir directory and WalkDir root, R and the current directory included, also written with a leading './' ('/./' after R), an inner '/./', a doubled separator, 'x/../' in front, a trailing separator and a trailing '/.'; "
+
 func universeFor(tier string) universe {
 	if tier == "thorough" {
 		return universe{
 			Label: "names {a,b,c} at top level, {a,b} below; top kinds {absent,file,dir,symlink>sibling,symlink>.,hardlink,empty file,abs symlink}; depth-2 kinds {absent,file,dir,symlink>sibling,symlink>.,hardlink}; patterns <= 3 segments; " +
 				"mode trees (first in the order): 8 shapes (full two-level tree and its mirror, file with a hard link in both orders, directory / file behind a relative / absolute symbolic link, directory holding a link to '.') x every single file, directory or hard-link name chmod'ed to every non-empty subset of {setuid,setgid,sticky} with its creation permissions, to 0000, 0777 and 7000, plus every assignment of {unchanged,setuid,setgid,sticky,all three} to the four entries of the full shape; " +
 				shapeLabel + "every non-empty subset of the names as files in R; every subset of 1..3 names as directories that hold all the names as files; all names, every other one a directory holding all the names; " +
-				"patterns of the name-shape trees: segments {*} + every name x {literal, *, ?, [^b], ?*}, one segment, and on the trees with directories every two-segment pattern over these segments; ReadDir, WalkDir (all callback families at every visit index) and the helpers on every path of the tree",
+				"patterns of the name-shape trees: segments {*} + every name x {literal, *, ?, [^b], ?*}, one segment, and on the trees with directories every two-segment pattern over these segments; ReadDir, WalkDir (all callback families at every visit index) and the helpers on every path of the tree; " +
+				spellLabel + "Glob patterns of <= 2 segments over {a, b, *, ?, a*, [ab], [^a], \\a}, absolute and relative; spelled WalkDir roots with all callback families at every visit index",
 			TopNames: []string{"a", "b", "c"}, KidNames: []string{"a", "b"},
 			ShapeNames: shapeNames, ShapeFlat: len(shapeNames), ShapeNested: 3,
-			TopKinds: []string{"-", "f", "d", "s", ".", "h", "e", "S"},
-			KidKinds: []string{"-", "f", "d", "s", ".", "h"},
-			MaxSeg:   3,
+			TopKinds:  []string{"-", "f", "d", "s", ".", "h", "e", "S"},
+			KidKinds:  []string{"-", "f", "d", "s", ".", "h"},
+			MaxSeg:    3,
+			SpellSegs: []string{"a", "b", "*", "?", "a*", "[ab]", "[^a]", `\a`}, SpellMaxSeg: 2, SpellFams: true,
 			Modes: []modeVar{
 				{0o4000, -1}, {0o2000, -1}, {0o1000, -1}, {0o7000, -1}, {0o6000, -1}, {0o5000, -1}, {0o3000, -1},
 				{0, 0o000}, {0, 0o777}, {0o7000, 0o000},
@@ -219,12 +230,14 @@ func universeFor(tier string) universe {
 		Label: "names {a,b}; top kinds {absent,file,dir,symlink>sibling,symlink>.,hardlink,empty file,abs symlink}; depth-2 kinds {absent,file,dir,symlink>sibling,symlink>.,hardlink}; patterns <= 2 segments; " +
 			"mode trees (first in the order): 8 shapes (full two-level tree and its mirror, file with a hard link in both orders, directory / file behind a relative / absolute symbolic link, directory holding a link to '.') x every single file, directory or hard-link name chmod'ed to setuid, setgid, sticky or all three (creation permissions kept) and to permission bits 0700, plus every assignment of {unchanged, all three bits} to the four entries of the full shape; " +
 			shapeLabel + "every subset of 1..3 names and the full set as files in R; every subset of 1..2 names as directories that hold all the names as files; all names, every other one a directory holding all the names; " +
-			"patterns of the name-shape trees: segments {*} + every name x {literal, *, ?, [^b], ?*}, one segment, and on the trees with directories two segments: every segment followed by {*, a*, a<U+00E9>} and * followed by every segment; ReadDir, WalkDir (all callback families at every visit index) and the helpers on every path of the tree",
+			"patterns of the name-shape trees: segments {*} + every name x {literal, *, ?, [^b], ?*}, one segment, and on the trees with directories two segments: every segment followed by {*, a*, a<U+00E9>} and * followed by every segment; ReadDir, WalkDir (all callback families at every visit index) and the helpers on every path of the tree; " +
+			spellLabel + "Glob patterns of <= 2 segments over {a, *}, absolute and relative; spelled WalkDir roots with the callback that never acts",
 		TopNames: []string{"a", "b"}, KidNames: []string{"a", "b"},
 		ShapeNames: shapeNames, ShapeFlat: 3, ShapeNested: 2, ShapeSeg2: []string{"*", "a*", "a\u00e9"},
 		TopKinds:  []string{"-", "f", "d", "s", ".", "h", "e", "S"},
 		KidKinds:  []string{"-", "f", "d", "s", ".", "h"},
 		MaxSeg:    2,
+		SpellSegs: []string{"a", "*"}, SpellMaxSeg: 2,
 		Modes:     []modeVar{{0o4000, -1}, {0o2000, -1}, {0o1000, -1}, {0o7000, -1}, {0, 0o700}},
 		ModeCombo: []modeVar{{0o7000, -1}},
 	}
